@@ -9,8 +9,8 @@
 // by specs/crypto/BlobSigTrace.tla.  The driver decides nothing.
 //
 // Abstraction (trusted): rel = presented expiry against the clock read before and after the call;
-// ok = the wrapper returned nil (the class of a refusal, by errors.Is / the KeepError's HTTP status,
-// is recorded for drift detection only); status = HTTP status of the GET.  For the locator returned by
+// res = what the wrapper returned: "ok" (nil), "expired" (its ExpiredError by errors.Is, else a KeepError
+// carrying ExpiredError's HTTP status) or "denied" (any other refusal); status = HTTP status of the GET.  For the locator returned by
 // PUT only its signature is judged (against the reference HMAC over the fields it carries).
 
 package main
@@ -52,6 +52,7 @@ type vC07KsScn struct {
 	Present  bool   `json:"present"`
 	Wf       bool   `json:"wf"`
 	Same     bool   `json:"same"`
+	Lenonly  bool   `json:"lenonly"`
 }
 
 // vC07KsRefSig: the reference signature written from services/api/app/models/blob.rb
@@ -184,7 +185,7 @@ func TestVerifC07KS(t *testing.T) {
 				t.Fatal(err)
 			}
 		}
-		tw.Write(map[string]interface{}{"ev": "reset", "scn": scn.ID, "kind": "ks", "wf": scn.Wf, "same": scn.Same,
+		tw.Write(map[string]interface{}{"ev": "reset", "scn": scn.ID, "kind": "ks", "wf": scn.Wf, "same": scn.Same, "lenonly": scn.Lenonly,
 			"loc": scn.Loc, "present": scn.Present})
 		// keepstore's own wrapper
 		t0 := time.Now()
@@ -241,7 +242,7 @@ func TestVerifC07KS(t *testing.T) {
 					if signedp {
 						ev["sigok"] = psig == vC07KsRefSig(key, phash, scn.VToken, pexp, ttl)
 					}
-					tw.Write(map[string]interface{}{"ev": "reset", "scn": scn.ID, "kind": "ksput", "wf": true, "same": true,
+					tw.Write(map[string]interface{}{"ev": "reset", "scn": scn.ID, "kind": "ksput", "wf": true, "same": true, "lenonly": false,
 						"loc": signed, "putstatus": presp.StatusCode})
 					if presp.StatusCode == 200 && signedp {
 						tw.Write(ev)
